@@ -143,12 +143,16 @@ func Resolve(p *ir.Prog) *Model {
 	}
 	m.SMux = m.field(s, "assigner", "mux", isType(mp+".Assigner"))
 	// two bools: told apart by name (tie-break only)
-	m.SAllowP = m.field(s, "allow push", "allowP", func(t types.Type, s string) bool { return s == "bool" && false })
+	// two bools, told apart by where their value comes from: the constructor fills them from
+	// option accessors that read the exported options AllowPush and DisableBuiltin
+	m.SAllowP = boolFieldFromOption(p, s, "AllowPush")
+	m.SBuiltin = boolFieldFromOption(p, s, "DisableBuiltin")
 	if m.SAllowP == nil {
-		m.Problems = m.Problems[:len(m.Problems)-1]
 		m.SAllowP = m.fieldNamed(s, "allowP", "bool")
 	}
-	m.SBuiltin = m.fieldNamed(s, "builtin", "bool")
+	if m.SBuiltin == nil {
+		m.SBuiltin = m.fieldNamed(s, "builtin", "bool")
+	}
 	// two WaitGroups: the lifetime group is the one waited on in an exported method
 	if s != nil {
 		var wgs []*types.Var
@@ -244,6 +248,57 @@ func (m *Model) fieldNamed(n *types.Named, name, typ string) *types.Var {
 	}
 	m.problem("%s.%s not found", n.Obj().Name(), name)
 	return nil
+}
+
+// boolFieldFromOption finds the bool field of owner that is stored with a value
+// computed from the exported option field named option (directly, or through
+// an accessor method of the options type that reads it).
+func boolFieldFromOption(p *ir.Prog, owner *types.Named, option string) *types.Var {
+	if owner == nil {
+		return nil
+	}
+	st, ok := owner.Underlying().(*types.Struct)
+	if !ok {
+		return nil
+	}
+	readsOption := func(f *ssa.Function) bool {
+		found := false
+		ir.Instrs(f, func(ins ssa.Instruction) {
+			if fa, ok := ins.(*ssa.FieldAddr); ok {
+				if v := ir.FieldVar(fa); v != nil && v.Name() == option {
+					found = true
+				}
+			}
+		})
+		return found
+	}
+	var out *types.Var
+	for i := 0; i < st.NumFields(); i++ {
+		f := st.Field(i)
+		if typeStr(f.Type()) != "bool" {
+			continue
+		}
+		for _, store := range p.FieldStores(f) {
+			for _, src := range p.SourcesStop(store.Val, func(v ssa.Value) bool { _, isCall := v.(*ssa.Call); return isCall }) {
+				switch x := src.(type) {
+				case *ssa.Call:
+					if g := x.Call.StaticCallee(); g != nil && p.InRepo[g] && readsOption(g) {
+						if out != nil && out != f {
+							return nil
+						}
+						out = f
+					}
+				case *ssa.UnOp:
+					if fa, ok := x.X.(*ssa.FieldAddr); ok {
+						if v := ir.FieldVar(fa); v != nil && v.Name() == option {
+							out = f
+						}
+					}
+				}
+			}
+		}
+	}
+	return out
 }
 
 func waitedInExported(p *ir.Prog, w *types.Var) bool {
